@@ -678,6 +678,17 @@ struct Explorer {
               restat_nowrite = true;
         x.facts.set("restat_upstream_ran_without_rewriting_in_first_run", restat_nowrite);
         x.facts.set("rerun_ran_in_first_run", Started(first, s.id));
+        // F1 in the manifest phase: a prerequisite of the manifest's generator with recorded dependencies, dirty for a reason
+        // of its own, ran there without its generated header being brought up to date first, and ran again in the build
+        // proper -- after the generator, which therefore finds its input newer the next time
+        bool twice = false;
+        for (int u : up) {
+          int n = 0;
+          for (auto& c : first.cmds) if (c.spec.id() == v->stmts[u].id) ++n;
+          if (n >= 2 && (!v->stmts[u].deps.empty() || !v->stmts[u].depfile.empty())) twice = true;
+        }
+        x.facts.set("an_input_statement_with_recorded_deps_ran_in_the_manifest_phase_and_again_in_the_build_proper",
+                    twice && s.id == "build.ninja");
         if (before) x.facts.set("discovered_deps_information_was_available_to_first_run", DiscoveredDepsAvailable(s, *before));
       }
     }
